@@ -69,6 +69,10 @@ def calculate_checksum_udp(packet: Packet):
     packet_checksum = packet.udp.sum.to_bytes(2, 'big')
     logging.info(f"expected checksum: 0x{calculated_checksum.hex()}, packet checksum: 0x{packet_checksum.hex()}")
 
+    if not packet.ipv6_packet and packet_checksum == b'\x00\x00':
+        # RFC 768: an all zero checksum field means the sender generated no checksum (IPv4 only)
+        return True
+
     return calculated_checksum == packet_checksum
 
 
